@@ -490,10 +490,16 @@ class Interp:
                     raise Raised('ZeroDivisionError')
             elif b == 0:
                 raise Raised('ZeroDivisionError')
+            if not is_sym(a) and not is_sym(b):
+                return a % b
             if is_int_term(a) and is_int_term(b):
                 return py_mod(a, b)
             if is_sym(a) and a.sort() == z3.RealSort() and b == 1:
                 return a - z3.ToReal(z3.ToInt(a))          # x % 1 for reals: fractional part (floor semantics)
+            if is_sym(a) and not is_sym(b) and b != 0:
+                # real % concrete divisor: a - b * floor(a / b) (Python's definition, sign of the divisor)
+                ar = to_real(a)
+                return ar - z3.RealVal(b) * z3.ToReal(z3.ToInt(ar / z3.RealVal(b)))
             raise Unsupported('modulo on reals')
         if isinstance(op, ast.LShift):
             if is_sym(b):
